@@ -295,6 +295,7 @@ static WD_CASE: AtomicU64 = AtomicU64::new(0);
 static WD_INFO: Mutex<Option<WatchdogInfo>> = Mutex::new(None);
 
 #[derive(Clone)]
+#[allow(dead_code)]
 struct WatchdogInfo {
     out: String,
     property: String,
@@ -351,7 +352,7 @@ fn start_watchdog() {
                         "count": 1,
                     }],
                 });
-                let _ = std::fs::write(&info.out, serde_json::to_string(&v).unwrap());
+                let _ = std::fs::write(&info.out, to_json(&v));
             }
             std::process::exit(0);
         }
@@ -729,7 +730,7 @@ impl Ctx {
                 "count": v.count,
             })).collect::<Vec<_>>(),
         });
-        let text = serde_json::to_string(&v).unwrap();
+        let text = to_json(&v);
         match &self.out {
             Some(path) => std::fs::write(path, text).expect("write shard output"),
             None => println!("{}", text),
@@ -766,4 +767,72 @@ impl Warnings {
     pub fn is_empty(&self) -> bool {
         self.0.is_empty()
     }
+}
+
+/// JSON serialisation by hand: serde_json 1.0.39 formats numbers through
+/// itoa 0.4 (`mem::uninitialized`), which Miri rejects.
+pub fn to_json(v: &Value) -> String {
+    let mut out = String::new();
+    write_json(v, &mut out);
+    out
+}
+
+fn write_json(v: &Value, out: &mut String) {
+    match v {
+        Value::Null => out.push_str("null"),
+        Value::Bool(b) => out.push_str(if *b { "true" } else { "false" }),
+        Value::Number(n) => {
+            if let Some(u) = n.as_u64() {
+                out.push_str(&format!("{}", u));
+            } else if let Some(i) = n.as_i64() {
+                out.push_str(&format!("{}", i));
+            } else {
+                let f = n.as_f64().unwrap_or(0.0);
+                if f.is_finite() {
+                    out.push_str(&format!("{:?}", f));
+                } else {
+                    out.push_str("null");
+                }
+            }
+        }
+        Value::String(s) => write_json_str(s, out),
+        Value::Array(a) => {
+            out.push('[');
+            for (i, x) in a.iter().enumerate() {
+                if i > 0 {
+                    out.push(',');
+                }
+                write_json(x, out);
+            }
+            out.push(']');
+        }
+        Value::Object(m) => {
+            out.push('{');
+            for (i, (k, x)) in m.iter().enumerate() {
+                if i > 0 {
+                    out.push(',');
+                }
+                write_json_str(k, out);
+                out.push(':');
+                write_json(x, out);
+            }
+            out.push('}');
+        }
+    }
+}
+
+fn write_json_str(s: &str, out: &mut String) {
+    out.push('"');
+    for c in s.chars() {
+        match c {
+            '"' => out.push_str("\\\""),
+            '\\' => out.push_str("\\\\"),
+            '\n' => out.push_str("\\n"),
+            '\r' => out.push_str("\\r"),
+            '\t' => out.push_str("\\t"),
+            c if (c as u32) < 0x20 => out.push_str(&format!("\\u{:04x}", c as u32)),
+            c => out.push(c),
+        }
+    }
+    out.push('"');
 }
